@@ -42,7 +42,18 @@ def run(ctx: Ctx):
             iters.append(n.iter)
         elif isinstance(n, ast.For):
             iters.append(n.iter)
-    samp_iters = [it for it in iters if "sampler" in u(it)]
+    from sa.inline import Inliner
+    inl_ln = Inliner(ln.node, rd)
+    iters = [inl_ln.expand(it) for it in iters]  # `samples = s.get_samples_for_epoch(s.epoch)` is looked through
+    bsn = ln.params[0].name
+
+    def _is_sampler_iteration(it):
+        t = u(it)
+        for wrap in ("iter(", "list(", "tuple("):
+            if t.startswith(wrap):
+                t = t[len(wrap):]
+        return t.startswith(f"{bsn}.sampler") or t == bsn
+    samp_iters = [it for it in iters if _is_sampler_iteration(it)]
     col.floor("len_sampler_iterations", len(samp_iters), 1)
     for it in samp_iters:
         ok = isinstance(it, ast.Call) and isinstance(it.func, ast.Attribute) and it.func.attr == "get_samples_for_epoch" \
@@ -276,14 +287,28 @@ def _s3(ctx, rel):
            loop.lineno)
     # leftovers iff not drop_incomplete
     tail = [n for n in f.node.body[f.node.body.index(loop) + 1:]]
-    okt = False
-    for n in tail:
-        if isinstance(n, ast.If) and u(n.test) == "not self.drop_incomplete" and not n.orelse:
-            ys = [x for x in ast.walk(n) if isinstance(x, ast.Yield)]
-            fors = [x for x in n.body if isinstance(x, ast.For)]
-            okt = len(ys) == 1 and len(fors) == 1 and "items()" in u(fors[0].iter) and isinstance(fors[0].target, ast.Tuple) \
-                and u(ys[0].value) == u(fors[0].target.elts[1])
+    from sa.astutil import under_flag
+    pm_it = parent_map(f.node)
+    # the table the per-bucket lists live in: the receiver of setdefault in the index loop
+    tables = {u(c.func.value) for c in ast.walk(loop) if isinstance(c, ast.Call) and isinstance(c.func, ast.Attribute) and c.func.attr == "setdefault"}
     stray = [x for n in tail for x in ast.walk(n) if isinstance(x, ast.Yield)]
+    okt = False
+    if len(stray) == 1 and len(tables) == 1:
+        tb = tables.pop()
+        y = stray[0]
+        kept = under_flag(guards_of(pm_it, y), "self.drop_incomplete", False)
+        # the yield sits in a loop over the table, and yields that loop's list: `for _, b in sorted(T.items()..): yield b`
+        # or `for k in sorted(T): yield T[k]`
+        lp = pm_it.get(y)
+        while lp is not None and not isinstance(lp, ast.For):
+            lp = pm_it.get(lp)
+        elem = False
+        if isinstance(lp, ast.For) and any(isinstance(x, ast.Name) and x.id == tb for x in ast.walk(lp.iter)):
+            if isinstance(lp.target, ast.Tuple) and len(lp.target.elts) == 2 and "items()" in u(lp.iter):
+                elem = u(y.value) == u(lp.target.elts[1])
+            elif isinstance(lp.target, ast.Name):
+                elem = u(y.value) == f"{tb}[{lp.target.id}]" or ("values()" in u(lp.iter) and u(y.value) == lp.target.id)
+        okt = kept and elem
     col.ob("G10", "S3", f"{where}::leftovers-iff-kept", okt and len(stray) == 1,
            "incomplete batches are not yielded exactly when drop_incomplete is false (each remaining list once)", rel,
            f.line)
@@ -355,7 +380,8 @@ def _collate(ctx, f, rel):
         for n in own_nodes(f.node):
             if isinstance(n, ast.Return) and isinstance(n.value, ast.Tuple):
                 gs = guards_of(pm, n)
-                with_ids = any(u(t) == "has_uttids" and pol for t, pol in gs)
+                from sa.astutil import under_flag as _uf
+                with_ids = _uf(gs, "has_uttids", True)
                 last = n.value.elts[-1]
                 has = isinstance(last, ast.Call) and call_name(last) == "tuple"
                 ok = has == with_ids
